@@ -724,6 +724,43 @@ func (env *rEnv) call(n *rNode) Value {
 			}
 			return sym(IntLit(int64(k)))
 		}
+	case "connopt":
+		// connopt("_foreign_keys"): the value last given to that SQLite connection parameter on this path
+		if n.Args[0].Op == "str" {
+			for i := len(env.post.trace) - 1; i >= 0; i-- {
+				if ev := env.post.trace[i]; ev.Kind == "urlopt" && ev.Text == n.Args[0].Text {
+					return sym(ev.Terms["v"])
+				}
+			}
+			return env.fail("connection option %s is not set on this path", n.Args[0].Text)
+		}
+	case "schemaCol":
+		// schemaCol("table", "column", "autoincrement" | "notnull" | "cascade:<table>" | "default:<v>"): a fact of schema.sql
+		if len(n.Args) == 3 && n.Args[0].Op == "str" && n.Args[1].Op == "str" && n.Args[2].Op == "str" {
+			def, ok := schemaColumnDef(e.schemaText, n.Args[0].Text, n.Args[1].Text)
+			if !ok {
+				return sym(TFalse)
+			}
+			d := " " + strings.Join(strings.Fields(strings.ToLower(def)), " ") + " "
+			d = strings.ReplaceAll(strings.ReplaceAll(d, " (", "("), "( ", "(")
+			want := strings.ToLower(n.Args[2].Text)
+			switch {
+			case want == "autoincrement":
+				return sym(BoolLit(strings.Contains(d, " primary key autoincrement ")))
+			case want == "notnull":
+				return sym(BoolLit(strings.Contains(d, " not null ")))
+			case strings.HasPrefix(want, "cascade:"):
+				return sym(BoolLit(strings.Contains(d, " references "+want[8:]+"(id) on delete cascade ")))
+			case strings.HasPrefix(want, "default:"):
+				return sym(BoolLit(strings.Contains(d, " default "+want[8:]+" ")))
+			}
+			return env.fail("schemaCol: unknown attribute %s", want)
+		}
+	case "schemaUnique":
+		// schemaUnique("table", "a,b"): the table declares UNIQUE over exactly those columns
+		if len(n.Args) == 2 && n.Args[0].Op == "str" && n.Args[1].Op == "str" {
+			return sym(BoolLit(schemaHasUnique(e.schemaText, n.Args[0].Text, n.Args[1].Text)))
+		}
 	case "stmtText":
 		// stmtText(i): the text of the i-th SQL statement issued on this path
 		if idx, ok := constIndex(env.eval(n.Args[0])); ok {
